@@ -402,6 +402,9 @@ def family_iter(fam, params):
     elif fam == "cc_flags":
         for e in exprgen.fam_cc_flags(*params):
             yield e
+    elif fam == "const_ops":
+        for e in exprgen.fam_const_ops(*params):
+            yield e
     elif fam == "flag_names":
         for e in exprgen.fam_flag_names(*params):
             yield e
@@ -444,6 +447,7 @@ def families(tier):
         out += [
             ("cc_flags", ((1, 2), 2), 8),
             ("flag_names", ((1, 2, 8),), 4),
+            ("const_ops", ((2, 3),), 4),
             ("ext_cmp", ((1, 2, 3, 4),), 8),
             ("compose", ((1, 2, 3),), 4),
             ("shift_rot", ((2, 3),), 4),
@@ -464,6 +468,7 @@ def families(tier):
     out += [
         ("cc_flags", ((1, 2, 3), 2), 16),
         ("flag_names", ((1, 2, 3, 8, 32),), 8),
+        ("const_ops", ((1, 2, 3, 4, 8),), 8),
         ("ext_cmp", ((1, 2, 3, 4, 5, 6, 8),), 16),
         ("compose", ((1, 2, 3, 4),), 16),
         ("shift_rot", ((2, 3, 4, 5, 8),), 16),
